@@ -101,3 +101,6 @@ func (n *Node) DropEmptyContainers() *Node {
 	}
 	return n
 }
+
+// RenderObject renders a node as a generic JSON object value (for embedding into larger documents).
+func RenderObject(n *Node, o JSONOpts) map[string]interface{} { return renderNode(n, o) }
